@@ -275,12 +275,13 @@ def leaf_decl(fs, real, proved_in):
     """The real signature of a callee with the contract another unit proves for it, body dropped (external_body)."""
     import copy
     g = copy.copy(fs)
-    g.loops, g.proofs, g.pre, g.decreases, g.twin = {}, [], None, None, None
-    txt, _ = annotate_fn(g, real, negctl=False)
-    src = Source('<leaf %s>' % fs.name, txt)
+    g.loops, g.proofs, g.pre, g.decreases, g.twin, g.body_sub = {}, [], None, None, None, []
+    src = Source('<leaf %s>' % fs.name, real)
     f = src.find_fn(fs.name)
-    head = re.sub(r'\s*// @vx:[^\n]*', '', txt[:f['open']])
-    return '// contract proved on the real text in unit %s\n#[verifier::external_body]\n%s{ unimplemented!() }' % (proved_in, head)
+    stub = real[:f['open']] + '{ unimplemented!() }'
+    txt, _ = annotate_fn(g, stub, negctl=False)
+    txt = re.sub(r'\s*// @vx:[^\n]*', '', txt)
+    return '// contract proved on the real text in unit %s\n#[verifier::external_body]\n%s' % (proved_in, txt)
 
 
 def make_twin(fs, real):
